@@ -27,8 +27,9 @@ Print Assumptions C08_fuel_monotone.
 
 (* the reported recursion depth is the least sufficient fuel, and it is
    within the linear bound *)
-Theorem C08_fuel_consumed_least : forall ts, exists n,
-  fuel_consumed ts = Some n /\ n <= fuel_for CExpression ts /\
+Theorem C08_fuel_consumed_least : forall ts,
+  let n := fuel_consumed ts in
+  1 <= n /\ n <= fuel_for CExpression ts /\
   run n CExpression ts <> PFuel /\
   (forall m, m < n -> run m CExpression ts = PFuel).
 Proof. exact fuel_consumed_spec. Qed.
